@@ -357,6 +357,41 @@ func run(w *ev.W) {
 			}
 		})
 	}
+	// (d) deep nesting: chains of structs / lists / sets / map values / map keys and a
+	// mixed chain, 63..66, 100 and 300 levels deep, the well-formed encoding and its
+	// truncations only (a limit in one of decode / skip shows up as a disagreement)
+	w.Progress("family d")
+	family = "family_d_deep_nesting"
+	for _, depth := range []int{63, 64, 65, 66, 100, 300} {
+		for _, shape := range []string{"struct", "list", "set", "mapvalue", "mapkey", "mixed"} {
+			v := tbin.Value{T: tbin.I8, I: 7}
+			for i := 0; i < depth; i++ {
+				sh := shape
+				if shape == "mixed" {
+					sh = []string{"struct", "list", "mapvalue", "set"}[i%4]
+				}
+				switch sh {
+				case "struct":
+					v = tbin.Value{T: tbin.Struct, Fields: []tbin.Field{{ID: int16(i%5 + 1), V: v}}}
+				case "list":
+					v = tbin.Value{T: tbin.List, VT: v.T, Items: []tbin.Value{v}}
+				case "set":
+					v = tbin.Value{T: tbin.Set, VT: v.T, Items: []tbin.Value{v}}
+				case "mapvalue":
+					v = tbin.Value{T: tbin.Map, KT: tbin.I8, VT: v.T, Items: []tbin.Value{{T: tbin.I8, I: 1}, v}}
+				case "mapkey":
+					v = tbin.Value{T: tbin.Map, KT: v.T, VT: tbin.I8, Items: []tbin.Value{v, {T: tbin.I8, I: 1}}}
+				}
+			}
+			e := tbin.Encode(v)
+			types := []byte{byte(v.T)}
+			caseFn(e, types)
+			for _, cut := range []int{1, len(e) / 2, len(e) - 1} {
+				caseFn(e[:cut], types)
+			}
+		}
+	}
+	family = "family_c_mutants"
 	small := smallSet()
 	for _, v := range small {
 		base(v, false)
